@@ -8,7 +8,7 @@ import re
 
 from ..astutil import call_attr, calls_in, guard_facts, unparse, walk_local, text_facts
 from ..cfg import CFG
-from ..dataflow import reaching_defs
+from ..dataflow import reaching_defs, resolved_text
 from ..report import Finding, Report
 from ..srcindex import AnalysisError, Index
 
@@ -154,7 +154,7 @@ def check_nearest(idx: Index, rep: Report) -> None:
         problems = []
         if [unparse(x) for x in init] != [start]:
             problems.append(("start", f"the walk starts from `{[unparse(x) for x in init]}`, not from the operation itself"))
-        if not adv or any(unparse(a.value) != f"{v}.parent_op()" for a in adv):
+        if not adv or any(resolved_text(cfg, a.value, cfg.node_of(a)) != f"{v}.parent_op()" and unparse(a.value) != f"{v}.parent_op()" for a in adv):
             problems.append(("advance", "the walk does not advance with parent_op()"))
         t = unparse(f.node)
         if f"{v}.has_trait(traits.SymbolTable" not in t and f"{v}.has_trait(SymbolTable" not in t:
